@@ -28,6 +28,9 @@ SAN_WRONG="DNS:wrong.test,IP:192.0.2.7"
 mk_leaf good root "$SAN_OK"
 mk_leaf wrongname root "$SAN_WRONG"
 mk_leaf proxy root "DNS:proxy.test"
+# single-name certificates: tell "verified against the contacted host" from "verified against another name of the same machine"
+mk_leaf localhostonly root "DNS:localhost"
+mk_leaf iponly root "IP:127.0.0.1"
 mk_leaf unknownissuer otherroot "$SAN_OK"
 mk_leaf unknownissuer_wrongname otherroot "$SAN_WRONG"
 mk_leaf expired root "$SAN_OK" 20000101000000Z 20010101000000Z
